@@ -261,6 +261,8 @@ def _returns_truthy_after_match(fn):
     """on every path through fn on which its regex matched, the value returned is truthy (or the path raises):
     a falsy return is only reached with the match known to have failed"""
     mv = {s.targets[0].id for s in walk_func(fn) if isinstance(s, ast.Assign) and isinstance(s.targets[0], ast.Name) and isinstance(s.value, ast.Call) and dotted(s.value.func) in ("self.match", "self.match_reg")}
+    # ... or the call itself when it stands in the test
+    mv |= {src(c) for c in walk_func(fn) if isinstance(c, ast.Call) and dotted(c.func) in ("self.match", "self.match_reg")}
     for p in branch_paths(fn.body):
         if isinstance(p.exit, ast.Return):
             v = p.exit.value
